@@ -17,7 +17,7 @@ use crate::model::{level_of, par_run, Accu, Id, Op, OpId, CT};
 
 #[allow(dead_code)]
 #[path = "/repo/p2panda-auth/src/group/crdt/state.rs"]
-mod state;
+pub(crate) mod state;
 
 use state::{GroupMembersState, MemberState};
 
@@ -285,10 +285,14 @@ fn run_domain<C: CT>(rep: &mut Report, d: &Domain) {
     }
     rep.part(v);
     if rep.want_sample() {
-        let a = &descr[n / 3];
-        let b = &descr[2 * n / 3];
-        rep.sample(json!({"conditions": C::NAME, "domain": d.name, "s1": show_state::<C>(a), "s2": show_state::<C>(b),
-            "merge(s1,s2)": show_canon(&canon(&state::merge(build::<C>(a), build::<C>(b))))}));
+        // a pair in which the tie-break decides (last such pair of the domain)
+        let pick = (0..n).rev().find_map(|a| (0..a).rev().find(|b| descr[a].iter().zip(&descr[*b]).any(|(x, y)| tie::<C>(x, y))).map(|b| (a, b)));
+        if let Some((a, b)) = pick {
+            let (a, b) = (&descr[a], &descr[b]);
+            rep.sample(json!({"conditions": C::NAME, "domain": d.name, "s1": show_state::<C>(a), "s2": show_state::<C>(b),
+                "merge(s1,s2)": show_canon(&canon(&state::merge(build::<C>(a), build::<C>(b)))),
+                "merge(s2,s1)": show_canon(&canon(&state::merge(build::<C>(b), build::<C>(a))))}));
+        }
     }
 }
 
